@@ -21,20 +21,21 @@ LEVEL = 'model_checking'
 
 LOCKER = ('GFU', 'QFU', 'R', 'W')
 WRITER = ('R', 'W', 'D')
-LM = ('wait', 'nowait', 'skip_locked')
+LM = ('wait', 'nowait', 'skip_locked', 'bykey')     # bykey: get_for_update(u=...) by a unique non-pk attribute
 
 
 def plan(tier):
     if tier == 'quick':
         return [
-            dict(name='c35-locker-vs-writer', how='graph', limit=520,
+            dict(name='c35-locker-vs-writer', how='graph', limit=480,
                  cfg=dict(NS=2, NO=1, MaxOps=2, Modes1=('opt', 'ser'), OpSet1=LOCKER, Modes=('opt', 'imm'),
                           OpSet=('W', 'D'), LockModes=LM)),
-            dict(name='c35-2rows', how='graph', limit=240,
-                 cfg=dict(NS=2, NO=2, MaxOps=2, Modes1=('opt',), OpSet1=('GFU', 'W'), Modes=('opt',),
-                          OpSet=('W', 'D'), LockModes=('wait',))),
+            # locks end with the transaction: lock, commit(), go on in the same db_session against a writer
+            dict(name='c35-commit-in-the-middle', how='graph', limit=280,
+                 cfg=dict(NS=2, NO=1, MaxOps=4, MaxOpsN=1, Modes1=('opt',), OpSet1=('GFU', 'CM', 'R', 'W'), Modes=('opt',),
+                          OpSet=('W', 'D'), LockModes=('wait', 'bykey'))),
             dict(name='c35-3s-sim', how='simulate', num=220, depth=16,
-                 cfg=dict(NS=3, NO=2, MaxOps=3, Modes1=('opt', 'ser'), OpSet1=LOCKER + ('X',),
+                 cfg=dict(NS=3, NO=2, MaxOps=3, Modes1=('opt', 'ser'), OpSet1=LOCKER + ('X', 'CM'),
                           Modes=('opt', 'imm', 'ser'), OpSet=WRITER + ('GFU', 'F'), LockModes=LM)),
         ]
     return [
@@ -55,13 +56,16 @@ def plan(tier):
         dict(name='c35-2rows-replay', how='graph', limit=2500,
              cfg=dict(NS=2, NO=2, MaxOps=2, Modes1=('opt',), OpSet1=('GFU', 'W'), Modes=('opt',),
                       OpSet=('W', 'D'), LockModes=('wait',))),
+        dict(name='c35-commit-in-the-middle', how='graph', limit=3000,
+             cfg=dict(NS=2, NO=1, MaxOps=4, MaxOpsN=1, Modes1=('opt', 'ser'), OpSet1=('GFU', 'CM', 'R', 'W'),
+                      Modes=('opt', 'imm'), OpSet=('W', 'D'), LockModes=('wait', 'bykey'))),
         # 3 sessions: one locker, two writers queueing for the lock
         dict(name='c35-3s', how='graph', limit=3000,
              cfg=dict(NS=3, NO=1, MaxOps=1, Modes1=('opt', 'ser'), OpSet1=('GFU', 'QFU', 'R'), Modes=('opt', 'imm', 'ser'),
                       OpSet=('W', 'D', 'GFU'), LockModes=('wait',))),
         dict(name='c35-3s-4ops-sim', how='simulate', num=2500, depth=26,
-             cfg=dict(NS=3, NO=2, MaxOps=4, Modes1=('opt', 'ser'), OpSet1=LOCKER + ('Q', 'X'),
-                      Modes=('opt', 'imm', 'ser'), OpSet=WRITER + ('GFU', 'QFU', 'F', 'X'), LockModes=LM)),
+             cfg=dict(NS=3, NO=2, MaxOps=4, Modes1=('opt', 'ser'), OpSet1=LOCKER + ('Q', 'X', 'CM'),
+                      Modes=('opt', 'imm', 'ser'), OpSet=WRITER + ('GFU', 'QFU', 'F', 'X', 'CM'), LockModes=LM)),
     ]
 
 
@@ -117,6 +121,7 @@ def run(ctx):
         'PostgreSQL/Oracle/MySQL: only the presence of FOR UPDATE [NOWAIT|SKIP LOCKED] in the generated SQL is checked; '
         'the locking behaviour of those servers is trusted',
         'writers in other processes are outside the model (SQLite would make them wait on the file lock)',
+        'a lock lasts until the transaction ends: an explicit commit() releases it (cache.for_update is cleared) although the db_session goes on',
     ]
 
 
